@@ -249,7 +249,8 @@ def _api_case(draw):
   f_scope = st.just(draw(st.sampled_from(SCOPES))) | st.sampled_from(SCOPES)
   f_param = st.just(draw(st.sampled_from(['p', 'q']))) | st.sampled_from(['p', 'q'])
   op = st.one_of(
-      st.tuples(st.sampled_from(['bind_str', 'bind_tuple', 'parse_flat', 'parse_block']),
+      st.tuples(st.sampled_from(['bind_str', 'bind_tuple', 'parse_flat', 'parse_block',
+                                 'parse_skip', 'parse_skip_block']),
                 f_i, _idx, f_scope, f_param, st.integers(0, 99)),
       st.tuples(st.sampled_from(['query', 'get_bindings', 'get_configurable', 'ref', 'ref_obj',
                                  'by_object']),
@@ -284,7 +285,8 @@ def _late_scenario(draw):
   names = [first, other]
   n_suffix = len(first.split('.'))
   j = draw(st.integers(1, n_suffix - 1))          # a proper suffix of `first`
-  write = st.sampled_from(['bind_str', 'bind_tuple', 'parse_flat', 'parse_block'])
+  write = st.sampled_from(['bind_str', 'bind_tuple', 'parse_flat', 'parse_block', 'parse_skip',
+                           'parse_skip_block'])
   read = st.sampled_from(['query', 'get_bindings', 'get_configurable', 'ref', 'ref_obj'])
   scope = draw(st.sampled_from(SCOPES))
   ops = [[draw(write), 0, j, scope, 'p', 1]]
@@ -394,7 +396,8 @@ def check_api(case):
         names.append(n)
         labels.add('late-registration')
       continue
-    if kind in ('bind_str', 'bind_tuple', 'parse_flat', 'parse_block'):
+    if kind in ('bind_str', 'bind_tuple', 'parse_flat', 'parse_block', 'parse_skip',
+                'parse_skip_block'):
       _, i, j, scope, param, val = op
       full, sp = spelling(i, j)
       res = m_match(names, sp)
@@ -404,8 +407,20 @@ def check_api(case):
         fn = lambda: gin.bind_parameter((scope, sp, param), val)
       elif kind == 'parse_flat':
         fn = lambda: gin.parse_config(f'{scoped(scope, sp)}.{param} = {val}')
-      else:
+      elif kind == 'parse_block':
         fn = lambda: gin.parse_config(f'{scoped(scope, sp)}:\n  {param} = {val}\n')
+      elif kind == 'parse_skip':
+        # skip_unknown only concerns names matching nothing: an ambiguous name is still rejected
+        fn = lambda: gin.parse_config(f'{scoped(scope, sp)}.{param} = {val}', skip_unknown=True)
+      else:
+        fn = lambda: gin.parse_config(f'{scoped(scope, sp)}:\n  {param} = {val}\n',
+                                      skip_unknown=[sp])
+      if not res and kind.startswith('parse_skip'):
+        before = state()
+        fn()          # unknown and covered: skipped silently, nothing changes
+        require(state() == before, 'skipped-statement-changed-config', f'{kind} {sp!r}')
+        labels.add('skip-unknown-name')
+        continue
       if len(res) == 1:
         fn()
         model.setdefault((scope, res[0]), {})[param] = val
